@@ -7,7 +7,7 @@
    establishes; S-mhash checks it on every marker the code returns.  Without it the statement is false of the model
    (C13h_dup_refuted: set_eqb is Set.__eq__, which cannot tell [a; a; b] from [a; b; b]). *)
 From Coq Require Import List Bool ZArith NArith Permutation.
-From Verif Require Import Str Marker MarkerHash MarkerBase MarkerHashSound.
+From Verif Require Import PyRes Str Marker MarkerHash MarkerBase MarkerHashSound MarkerNodup.
 Import ListNotations.
 
 Theorem C13h_hash (hstr : str -> Z) (hop : mop -> Z) a b :
@@ -36,5 +36,40 @@ Proof.
   split; [vm_compute; reflexivity | vm_compute; discriminate].
 Qed.
 
-Definition C13h_all := (C13h_hash, C13h_set_order, C13h_runs, C13h_dup_refuted).
+(* the side condition holds of every marker built from atoms, the universal and the empty marker by &, |, MultiMarker.of and
+   MarkerUnion.of (what parse_marker folds with) — for every fuel, set order and merge oracle whose results satisfy it (a merged
+   version atom is an atom, Any or Empty in the code: checked on every row) — so ==-equal results of the algebra hash alike.
+   only() / exclude() copy grouped atoms of their argument unchanged and combine them with the same operations; they are not
+   part of this statement. *)
+Section Reach.
+  Variable vmerge : bool -> atom -> atom -> option marker.
+  Variable vcontains : atom -> str -> bool.
+  Variable perm : list marker -> list marker.
+  Hypothesis vmerge_nodup : forall k a b r, vmerge k a b = Some r -> nodup_vals r = true.
+  Hypothesis perm_perm : forall l, Permutation (perm l) l.
+
+  Inductive hreach : marker -> Prop :=
+  | HR_any : hreach MAny
+  | HR_empty : hreach MEmpty
+  | HR_atom a : hreach (MAtom a)
+  | HR_and fuel a b r : hreach a -> hreach b -> mand vmerge vcontains perm fuel a b = Ret r -> hreach r
+  | HR_or fuel a b r : hreach a -> hreach b -> mor vmerge vcontains perm fuel a b = Ret r -> hreach r
+  | HR_multi_of fuel l r : (forall x, In x l -> hreach x) -> multi_of vmerge vcontains perm fuel l = Ret r -> hreach r
+  | HR_union_of fuel l r : (forall x, In x l -> hreach x) -> union_of vmerge vcontains perm fuel l = Ret r -> hreach r.
+
+  Theorem C13h_reach_nodup : forall m, hreach m -> nodup_vals m = true.
+  Proof.
+    fix IH 2. intros m [| |a|fuel a b r Ha Hb E|fuel a b r Ha Hb E|fuel l r Hl E|fuel l r Hl E]; try reflexivity.
+    - exact (mand_nodup vmerge vcontains perm vmerge_nodup perm_perm fuel a b r E (IH a Ha) (IH b Hb)).
+    - exact (mor_nodup vmerge vcontains perm vmerge_nodup perm_perm fuel a b r E (IH a Ha) (IH b Hb)).
+    - apply (multi_of_nodup vmerge vcontains perm vmerge_nodup perm_perm fuel l r E). apply forallb_forall. intros x Hx. exact (IH x (Hl x Hx)).
+    - apply (union_of_nodup vmerge vcontains perm vmerge_nodup perm_perm fuel l r E). apply forallb_forall. intros x Hx. exact (IH x (Hl x Hx)).
+  Qed.
+
+  Theorem C13h_hash_reachable (hstr : str -> Z) (hop : mop -> Z) a b :
+    hreach a -> hreach b -> marker_eqb a b = true -> mhash hstr hop a = mhash hstr hop b.
+  Proof. intros Ha Hb. exact (marker_eqb_mhash hstr hop a b (C13h_reach_nodup a Ha) (C13h_reach_nodup b Hb)). Qed.
+End Reach.
+
+Definition C13h_all := (C13h_hash, C13h_set_order, C13h_runs, C13h_dup_refuted, C13h_reach_nodup, C13h_hash_reachable).
 Redirect "C13h.assumptions" Print Assumptions C13h_all.
